@@ -142,14 +142,78 @@ theorem loop_ping (state want : Nat) (errText : ProtoErr → Bytes) (inter : Cal
     simp [rdErrOf, hh2]
   · simp only [hw', pongFor, CtlSrc.bytes, hfl]
 
-/-- what may precede the wanted message: data messages of other types, and pings -/
+/-- a pong in front of the loop: consumed, nothing written, idle again -/
+theorem loop_pong (state want : Nat) (errText : ProtoErr → Bytes) (inter : Callback)
+    (r0 : Rd) (s : Src) (cx : Ctx) (fuel : Nat) (f : WFrame) (rest : Bytes)
+    (hi : Idle state r0)
+    (hst : state < 256) (hnf : stIs state stFragmented = false)
+    (hok : f.OK) (hpong : f.h.op = opPong) (hfin : f.h.fin = true)
+    (hacc : checkHeader f.h state = none)
+    (hb : s.bytes = f.enc ++ rest) (hwf : Bytes.WF s.bytes) (htame : Src.Tame s) :
+    ∃ r1 s1 cx1, readData.loop want errText (stIs state stClient) inter (fuel + 1) r0 s cx
+        = readData.loop want errText (stIs state stClient) inter fuel r1 s1 cx1
+      ∧ Idle state r1 ∧ s1.bytes = rest ∧ Src.Tame s1
+      ∧ cx1.env = cx.env ∧ cx1.msgs = cx.msgs := by
+  have hctl : opIsControl f.h.op = true := by rw [hpong]; rfl
+  have hbytes : s.bytes = rfcEncode f.h ++ (f.wire ++ rest) := by rw [hb]; simp [WFrame.enc]
+  have hwt : Bytes.WF (f.wire ++ rest) := by rw [hbytes] at hwf; exact wf_append_right hwf
+  obtain ⟨s1, hrh, hb1, ht1, hmu1⟩ := readHeader_ok f.h hok.hwf _ hwt s hbytes htame
+  have haccept : Accepts r0 f.h := ⟨by simp [hi.skip, hi.st, hacc], by simp [hi.maxF]⟩
+  have hfr0 : r0.fragmented = false := by simp [Rd.fragmented, hi.st, hnf]
+  have hnt : f.h.op ≠ opText := by rw [hpong]; decide
+  have hnext := nextFrame_unfragmented r0 s s1 cx (some inter) f.h hrh haccept hi.ext hfr0
+  have hidle0 : Idle state (enter r0 f.h) := by
+    refine ⟨?_, by simp [enter, hi.chk], by simp [enter, hi.ext], by simp [enter, hi.skip], by simp [enter, hi.maxF], by simp [enter, hi.u8]⟩
+    simp only [enter, hfin, if_true, hi.st]; exact clear_id state hst hnf
+  have h1 : ¬ f.h.op = opPing := by rw [hpong]; decide
+  by_cases hz : f.h.len = 0
+  · -- no payload: the handler is not given anything to read
+    have hw0 : f.wire = [] := List.length_eq_zero_iff.mp (by rw [hok.len]; exact hz)
+    have hh2 : handleControl (stIs state stClient) f.h { chunks := [] } false cx.env errText = some (none, cx.env) := by
+      unfold handleControl handlePong
+      rw [if_neg h1, if_pos hpong, if_pos hz]
+    refine ⟨enter r0 f.h, s1, { cx with env := cx.env, events := cx.events ++ [(f.h.op, [])] }, ?_, hidle0,
+      by rw [hb1, hw0]; rfl, ht1, rfl, rfl⟩
+    rw [readData.loop]
+    simp only [hnext, hctl, if_true]
+    unfold controlFrameHandler
+    simp only [hz, ne_eq, not_true_eq_false, false_and, not_false_eq_true, if_true, hh2]
+    simp
+  · have hin : InFrame (enter r0 f.h) s1 f.wire rest :=
+      ⟨by simp [enter], by simp [enter, hfr0, hnt], hb1, by simp [enter, hok.len], by rw [hb1]; exact hwt,
+       by simp [enter]; exact hok.mwf, ht1⟩
+    have hnf1 : (enter r0 f.h).fragmented = false := by
+      simp [enter, Rd.fragmented, hfin, hi.st, clear_not_fragmented state hst]
+    obtain ⟨chunks, r', s', hp, _, hb', ht', hcfg⟩ := pull_final_k (some inter) 32768 (by decide) (pullFuel s1) (enter r0 f.h) s1 cx []
+      f.wire rest hin hnf1 (Or.inr (by simp [enter, hi.u8, Utf8Rd.valid]; rfl)) (by unfold pullFuel Src.fuel mu; omega)
+    have hh2 : handleControl (stIs state stClient) f.h { chunks := chunks, fin := .eof, ueofEnd := false } false cx.env errText
+        = some (none, cx.env) := by
+      unfold handleControl handlePong
+      rw [if_neg h1, if_pos hpong, if_neg hz]
+      simp [CtlSrc.endErr]
+    have hidle : Idle state r' := by
+      obtain ⟨c1, c2, c3, c4, c5, c6⟩ := hcfg
+      exact ⟨by rw [c1]; exact hidle0.st, by rw [c2]; exact hidle0.chk, by rw [c3]; exact hidle0.ext,
+             by rw [c4]; exact hidle0.skip, by rw [c5]; exact hidle0.maxF, c6⟩
+    refine ⟨r', s', { cx with env := cx.env, events := cx.events ++ [(f.h.op, chunks.flatten)] }, ?_, hidle, hb', ht', rfl, rfl⟩
+    rw [readData.loop]
+    simp only [hnext, hctl, if_true]
+    unfold controlFrameHandler
+    simp only [hz, ne_eq, not_false_eq_true, hpong, true_or, or_true, and_self, not_true_eq_false, if_false]
+    simp only [hp, List.reverse_nil, List.nil_append]
+    rw [← hpong]
+    simp [rdErrOf, hh2]
+
+/-- what may precede the wanted message: data messages of other types, pings, and unsolicited pongs -/
 inductive Item where
   | skip (f : WFrame)
   | ping (f : WFrame)
+  | pong (f : WFrame)
 
 def Item.frame : Item → WFrame
   | .skip f => f
   | .ping f => f
+  | .pong f => f
 
 structure GoodPing (state : Nat) (f : WFrame) : Prop where
   ok : f.OK
@@ -158,14 +222,22 @@ structure GoodPing (state : Nat) (f : WFrame) : Prop where
   len : 0 < f.h.len ∧ f.h.len ≤ 125
   acc : checkHeader f.h state = none
 
+structure GoodPong (state : Nat) (f : WFrame) : Prop where
+  ok : f.OK
+  op : f.h.op = opPong
+  fin : f.h.fin = true
+  acc : checkHeader f.h state = none
+
 def Item.Good (state want : Nat) : Item → Prop
   | .skip f => Unwanted state want f
   | .ping f => GoodPing state f
+  | .pong f => GoodPong state f
 
 def pingsOf : List Item → List WFrame
   | [] => []
   | .skip _ :: is => pingsOf is
   | .ping f :: is => f :: pingsOf is
+  | .pong _ :: is => pingsOf is
 
 /-- `ws` are the pongs for `ps`, one each, in order, each under some drawn mask -/
 inductive PongsFor (client : Bool) : List Bytes → List WFrame → Prop
@@ -204,6 +276,13 @@ theorem loop_history (state want : Nat) (errText : ProtoErr → Bytes) (inter : 
       have hwf1 : Bytes.WF s1.bytes := by rw [hb1]; exact wf_append_right (hb' ▸ hwf)
       obtain ⟨r2, s2, cx2, ws, h2, hi2, hb2, hwf2, ht2, he2, hw2, hp2, hm2⟩ := ih r1 s1 cx hi1 he hb1 hwf1 ht1
       exact ⟨r2, s2, cx2, ws, by rw [h1, h2], hi2, hb2, hwf2, ht2, he2, hw2, hp2, hm2⟩
+    | pong q =>
+      have hq : GoodPong state q := hit
+      obtain ⟨r1, s1, cx1, h1, hi1, hb1, ht1, he1, hm1⟩ := loop_pong state want errText inter r0 s cx (fuel + items.length) q
+        (encodeFs (items.map Item.frame) ++ rest) hi hst hnf hq.ok hq.op hq.fin hq.acc hb' hwf ht
+      have hwf1 : Bytes.WF s1.bytes := by rw [hb1]; exact wf_append_right (hb' ▸ hwf)
+      obtain ⟨r2, s2, cx2, ws, h2, hi2, hb2, hwf2, ht2, he2, hw2, hp2, hm2⟩ := ih r1 s1 cx1 hi1 (by rw [he1]; exact he) hb1 hwf1 ht1
+      exact ⟨r2, s2, cx2, ws, by rw [h1, h2], hi2, hb2, hwf2, ht2, he2, by rw [hw2, he1], hp2, by rw [hm2, hm1]⟩
     | ping p =>
       have hp : GoodPing state p := hit
       obtain ⟨r1, s1, cx1, h1, hi1, hb1, ht1, he1, hw1, hm1⟩ := loop_ping state want errText inter r0 s cx (fuel + items.length) p
